@@ -11,7 +11,31 @@ import (
 type heapRef struct{ name, sort string }
 
 // keySort returns the SMT sort used for keys of type K (declaring a tuple datatype if needed).
+// arrayKey: keys of a small array type with scalar elements ([32]byte identities) are encoded as
+// the tuple of their elements, so that key equality is element-wise equality (an SMT array would
+// also compare the unconstrained cells outside the array's bounds).
+func arrayKey(k types.Type) (n int64, sort string, elem types.Type, ok bool) {
+	at, isArr := norm(k).Underlying().(*types.Array)
+	if !isArr || at.Len() < 1 || at.Len() > 64 {
+		return 0, "", nil, false
+	}
+	cs := flatten(at.Elem())
+	if len(cs) != 1 || cs[0].Path != "" {
+		return 0, "", nil, false
+	}
+	return at.Len(), cs[0].Sort, at.Elem(), true
+}
+
 func (e *Engine) keySort(k types.Type) string {
+	if n, es, _, ok := arrayKey(k); ok {
+		name := quoteSym("Tup!" + heapTypeName(k))
+		sorts := make([]string, n)
+		for i := range sorts {
+			sorts[i] = es
+		}
+		e.sym.Datatype(name, sorts)
+		return name
+	}
 	cs := flatten(k)
 	if len(cs) == 1 {
 		return cs[0].Sort
@@ -26,6 +50,16 @@ func (e *Engine) keySort(k types.Type) string {
 }
 
 func (e *Engine) keyTerm(v Value, k types.Type) Term {
+	if n, _, _, ok := arrayKey(k); ok {
+		if a, isArr := v.(VArr); isArr && len(a.Comps) == 1 {
+			sort := e.keySort(k)
+			fields := make([]Term, n)
+			for i := int64(0); i < n; i++ {
+				fields[i] = Select(a.Comps[0], IntLit(i))
+			}
+			return app(sort, "mk!"+sort, fields...)
+		}
+	}
 	ts := toTerms(v, k)
 	if len(ts) == 1 {
 		return ts[0]
@@ -35,6 +69,14 @@ func (e *Engine) keyTerm(v Value, k types.Type) Term {
 }
 
 func (e *Engine) keyFromTerm(t Term, k types.Type) Value {
+	if n, es, elem, ok := arrayKey(k); ok {
+		sort := e.keySort(k)
+		arr := Term{"((as const (Array Int " + es + ")) " + zeroOfSort(es).S + ")", "(Array Int " + es + ")"}
+		for i := int64(0); i < n; i++ {
+			arr = Store(arr, IntLit(i), app(es, fmt.Sprintf("f%d!%s", i, sort), t))
+		}
+		return VArr{N: n, Elem: elem, Comps: []Term{arr}}
+	}
 	cs := flatten(k)
 	if len(cs) == 1 {
 		v, _ := fromTerms([]Term{t}, k)
